@@ -1,20 +1,35 @@
 PROP = {
-    'id': 'C09',
-    'specs': ['specs.paths', 'specs.priority_queue'],
-    'functions': ['mouette.processing.paths._check_weight_argument',
-                  'mouette.utils.priority_queue.PriorityQueue.push', 'mouette.utils.priority_queue.PriorityQueue.get', 'mouette.utils.priority_queue.PriorityQueue.empty'],
-    'level': 'other',
-    'explanation': 'Deductive part: the priority queue the Dijkstra loops rely on (get hands out a pending item of minimum priority, push adds exactly one, emptiness) and the weight-mode '
-                   'validation are proved for all inputs. The Dijkstra loops of shortest_path / shortest_path_to_vertex_set themselves (dict-of-dict graph construction, polymorphic '
-                   'targets, closures) are not yet under contract: path validity and minimality are decided only by the bounded native contract below, which is not a proof.',
-    'trusted_base': ['A1', 'A3', 'A8 heapq contract', 'B1/B2 multiset axioms'],
-    'bounded': [
-        {'name': 'all', 'function': 'paths.shortest_path, shortest_path_to_vertex_set (and through it shortest_path_to_border)', 'engine': 'Br (native run-time contract)',
-         'bound': '6 meshes (2 polylines with chords/cycle, jittered 4x4, 3x5-quad and 6x6 grids, 6-tet cube) x weights one/length/custom (incl. zero weights) x 3 starts x '
-                  '{int target, singleton list, set containing the start, list of 4} + 4 vertex sets: every returned path checked to start/end correctly, walk mesh edges, and have the '
-                  'weight of an independent Dijkstra; set variant ends at a nearest member; + 120 seeded dense random graphs on 5-7 vertices with custom weights in {0.5,1,2,5,9} '
-                  '(every start, 3 target sets of 2-3 members each): 400 graphs in the thorough tier'},
-    ],
-    'not_decided': ['clauses (a)-(d) for all meshes: bounded only'],
-    'math': [],
+ "id": "C09",
+ "specs": [
+  "specs.paths",
+  "specs.priority_queue"
+ ],
+ "functions": [
+  "mouette.processing.paths._check_weight_argument",
+  "mouette.utils.priority_queue.PriorityQueue.push",
+  "mouette.utils.priority_queue.PriorityQueue.get",
+  "mouette.utils.priority_queue.PriorityQueue.empty",
+  "mouette.processing.paths.shortest_path#reconstruct"
+ ],
+ "level": "other",
+ "explanation": "Deductive part: (1) the path reconstruction of shortest_path (region contract on the real statements that turn the predecessor table into vertex lists): for every predecessor table that is a tree towards the start, the list of every target begins at the start, ends at the target, each step goes from a vertex's predecessor to the vertex, and the reconstruction terminates; (2) the priority queue (push/get/empty against the multiset model) and the validation of the weight mode. Dijkstra's loop itself (that the predecessor table IS such a tree along mesh edges, and that the distances are minimal - the queue-order invariant) is not under contract: minimality and edge-validity are decided only by the bounded native contract, which is not a proof.",
+ "trusted_base": [
+  "A1",
+  "A3",
+  "A8 heapq contract",
+  "B1/B2 multiset axioms",
+  "path reconstruction region: the predecessor table is a tree towards the start (logical parameter depth strictly decreasing along predecessor links) and contains every target - precondition, established by the search loop which is not verified"
+ ],
+ "bounded": [
+  {
+   "name": "all",
+   "function": "paths.shortest_path, shortest_path_to_vertex_set (and through it shortest_path_to_border)",
+   "engine": "Br (native run-time contract)",
+   "bound": "6 meshes (2 polylines with chords/cycle, jittered 4x4, 3x5-quad and 6x6 grids, 6-tet cube) x weights one/length/custom (incl. zero weights) x 3 starts x {int target, singleton list, set containing the start, list of 4} + 4 vertex sets: every returned path checked to start/end correctly, walk mesh edges, and have the weight of an independent Dijkstra; set variant ends at a nearest member; + 120 seeded dense random graphs on 5-7 vertices with custom weights in {0.5,1,2,5,9} (every start, 3 target sets of 2-3 members each): 400 graphs in the thorough tier"
+  }
+ ],
+ "not_decided": [
+  "clauses (a)-(d) for all meshes: bounded only"
+ ],
+ "math": []
 }
